@@ -16,6 +16,8 @@ CONSTANTS
   EmitEvery = 20
   Faults = {}
   WithBind = FALSE
+  AdvMsgs = {}
+  MaxAdv = 0
   MaxNow = 9
   WithBridge = FALSE
 INVARIANTS Emit NoViolation
